@@ -155,58 +155,87 @@ def program_def(name, ops):
             % (name, body))
 
 
-_RES = re.compile(r"=\s*(\[.*?\])\s*:\s*list \(list Z\)", re.S)
+_RES = re.compile(r"=\s*(\[[^\[\]]*\])\s*:\s*list Z", re.S)
+
+HMOD = 2305843009213693951
+
+
+def htok(tokens):
+    h = 7
+    for x in tokens:
+        h = (h * 1000003 + (x & HMOD)) & HMOD
+    return h
 
 
 def parse_lists(text):
     out = []
     for m in _RES.finditer(text):
-        body = m.group(1)
-        res = []
-        for inner in re.findall(r"\[([^\[\]]*)\]", body[1:-1]):
-            inner = inner.strip()
-            res.append([int(x) for x in inner.split(";")] if inner else [])
-        out.append(res)
+        inner = m.group(1)[1:-1].strip()
+        out.append([int(x) for x in inner.split(";")] if inner else [])
     return out
 
 
-def write_case_file(path, programs, instances=("F64",)):
-    """programs: list of op lists"""
+def write_case_file(path, programs, instances=("F64",), extra=None, at=None):
+    """programs: list of op lists; prints, per program and instance, the list of per-observation
+    hashes (or, with at=j, the j-th observation itself)"""
     with open(path, "w") as f:
         f.write(HEADER)
+        if extra:
+            f.write(extra + "\n")
         for i, ops in enumerate(programs):
             f.write(program_def("p%d" % i, ops))
             for inst in instances:
-                f.write("Eval vm_compute in (run (p%d %s)).\n" % (i, inst))
+                if at is None:
+                    f.write("Eval vm_compute in (run_hash (p%d %s)).\n" % (i, inst))
+                else:
+                    f.write("Eval vm_compute in (run_at (p%d %s) %d).\n" % (i, inst, at))
 
 
-def run_case_file(path, timeout=600):
+def run_case_file(path, timeout=900):
     r = subprocess.run(["coqc", "-Q", COQ_DIR, "Hgm", path], capture_output=True, text=True,
                        timeout=timeout, cwd=os.path.dirname(path))
     if r.returncode != 0:
-        raise RuntimeError("coqc failed on %s:\n%s" % (path, r.stderr[-3000:]))
+        raise RuntimeError("coqc failed on %s:\n%s" % (path, (r.stdout + r.stderr)[-3000:]))
     return parse_lists(r.stdout)
 
 
-def run_models(programs, instances=("F64",), workdir=None, shard=200, jobs=16):
-    """returns, per program, a dict instance -> list of observations"""
+def _tmpdir():
+    base = os.environ.get("VERIF_TMP", "/root/scratch")
+    os.makedirs(base, exist_ok=True)
+    return tempfile.mkdtemp(prefix="hgmcases_", dir=base)
+
+
+def run_models(programs, instances=("F64",), shard=12, jobs=16, extra=None):
+    """returns, per program, a dict instance -> list of per-observation hashes"""
+    import shutil
     from concurrent.futures import ThreadPoolExecutor
-    tmp = workdir or tempfile.mkdtemp(prefix="hgmcases_", dir=os.environ.get("VERIF_TMP", "/root/scratch"))
-    os.makedirs(tmp, exist_ok=True)
-    shards = [programs[i:i + shard] for i in range(0, len(programs), shard)]
-    paths = []
-    for si, sh in enumerate(shards):
-        p = os.path.join(tmp, "cases%d.v" % si)
-        write_case_file(p, sh, instances)
-        paths.append(p)
-    with ThreadPoolExecutor(max_workers=jobs) as ex:
-        results = list(ex.map(run_case_file, paths))
-    out = []
-    for sh, res in zip(shards, results):
-        assert len(res) == len(sh) * len(instances), (len(res), len(sh), len(instances))
-        for i in range(len(sh)):
-            out.append({inst: res[i * len(instances) + j] for j, inst in enumerate(instances)})
-    if workdir is None:
-        import shutil
+    tmp = _tmpdir()
+    try:
+        shards = [programs[i:i + shard] for i in range(0, len(programs), shard)]
+        paths = []
+        for si, sh in enumerate(shards):
+            p = os.path.join(tmp, "cases%d.v" % si)
+            write_case_file(p, sh, instances, extra)
+            paths.append(p)
+        with ThreadPoolExecutor(max_workers=jobs) as ex:
+            results = list(ex.map(run_case_file, paths))
+        out = []
+        for sh, res in zip(shards, results):
+            assert len(res) == len(sh) * len(instances), (len(res), len(sh), len(instances))
+            for i in range(len(sh)):
+                out.append({inst: res[i * len(instances) + j] for j, inst in enumerate(instances)})
+        return out
+    finally:
         shutil.rmtree(tmp, ignore_errors=True)
-    return out
+
+
+def model_observation(ops, j, inst="F64", extra=None):
+    """the full j-th observation of one program (used to describe a disagreement)"""
+    import shutil
+    tmp = _tmpdir()
+    try:
+        p = os.path.join(tmp, "one.v")
+        write_case_file(p, [ops], (inst,), extra, at=j)
+        return run_case_file(p)[0]
+    finally:
+        shutil.rmtree(tmp, ignore_errors=True)
